@@ -6,6 +6,7 @@ import (
 	"go/constant"
 	"go/token"
 	"go/types"
+	"strconv"
 	"strings"
 
 	"golang.org/x/tools/go/ssa"
@@ -33,6 +34,7 @@ func specC03() *propertySpec {
 			{"C03-R8", "non-nil-when-disallowed: ptrGen returns nil only on the false edge of a coin whose probability is the constant 1 unless allowNil", ruleC03R8},
 			{"C03-R9", "length-control: the fields of repeat are written only by newRepeat/more/reject; more forces continue below minCount and stop at maxCount; a forced stop is set only when count >= minCount, otherwise reject raises invalid data", ruleC03R9},
 			{"C03-R10", "byte-budget: stringGen.value appends a rune only if its UTF-8 length is known (RuneLen >= 0: encodable, WriteRune writes exactly that many bytes) and fits into maxLen", ruleC03R10},
+			{"C03-R11", "every-value-draws: each built-in generator's value method reads the bit stream at least once on every path to a normal return (Generator.value wraps it in a group and endGroup asserts that the group used data): a generator that returns its degenerate value without drawing panics with an internal assertion for exactly those inputs instead of producing the value", ruleC03R11},
 		},
 	}
 }
@@ -853,6 +855,76 @@ func ruleC03R6(r *Run) {
 					r.Check("newMakeKindGen#case."+kind, cc.Pos(), good, "reflect."+kind+" is generated by a generator of "+got, "Make maps reflect."+kind+" to a generator of "+got+": the value does not have the requested dynamic type")
 				}
 			}
+			// the consumer of the flag: the kind generator is returned as it is only where no conversion was requested or
+			// the type is the predeclared type of its kind (its name is the kind's name)
+			if mg := r.MustFn("newMakeGen"); mg != nil {
+				nRaw := 0
+				for _, ret := range returnsOf(mg) {
+					for _, a := range p.alternatives(p.res(ret, 0), 0) {
+						rv := p.resolve(a.Val)
+						if ex, isEx := rv.(*ssa.Extract); isEx && ex.Index == 0 {
+							if c, ok := ex.Tuple.(*ssa.Call); ok && p.calleeKey(c.Common()) == "newMakeKindGen" && p.expr(c.Common().Args[0]) == "$typ" {
+								nRaw++
+								flag := p.expr(ex.Tuple) + "#1"
+								exempt := func(lits []string) bool {
+									for _, lit := range lits {
+										if lit == flag+" == false" || lit == flag+" != true" {
+											return true
+										}
+										if (strings.Contains(lit, " == ")) && strings.Contains(lit, "reflect.Type.String($typ)") && strings.Contains(lit, "(reflect.Kind).String(invoke:reflect.Type.Kind($typ))") {
+											return true
+										}
+									}
+									return false
+								}
+								var fl []string
+								for _, f := range a.Facts {
+									fl = append(fl, f.String())
+								}
+								bad := ""
+								if !exempt(fl) {
+									for _, set := range p.pathConds(mg, ret.Block(), nil) {
+										if !exempt(append(append([]string{}, set...), fl...)) {
+											bad = "{" + strings.Join(append(append([]string{}, set...), fl...), " ∧ ") + "}"
+										}
+									}
+								}
+								r.Check("newMakeGen#uncast-return", ret.Pos(), bad == "", "the kind generator is used without conversion only if none was requested or the type is the predeclared one", "newMakeGen returns the kind generator without a conversion on the path "+bad+": for a named type of a scalar kind the value has the predeclared type and Make[V] panics in its type assertion")
+								continue
+							}
+						}
+						// the converting wrapper built here from the same type
+						if c, ok := rv.(*ssa.Call); ok && p.calleeKey(c.Common()) == "newGenerator" {
+							okWrap := false
+							if al, ok := p.resolve(c.Common().Args[0]).(*ssa.Alloc); ok && p.typeStr(al.Type()) == "*castGen" {
+								okWrap = true
+								for _, ref := range *al.Referrers() {
+									if fa, ok := ref.(*ssa.FieldAddr); ok && fieldAddrName(fa) == "typ" {
+										for _, u := range *fa.Referrers() {
+											if st, ok := u.(*ssa.Store); ok && p.expr(st.Val) != "$typ" {
+												okWrap = false
+											}
+										}
+									}
+								}
+							}
+							r.Check("newMakeGen#cast-to-requested-type", ret.Pos(), okWrap, "the converting generator converts to the requested type", "newMakeGen wraps the kind generator in "+p.expr(rv)+", which does not convert to the requested type typ")
+							continue
+						}
+						// anything else (a cache entry, a generator built for another type) must be keyed by the type itself
+						okKey := false
+						if ta, ok := rv.(*ssa.TypeAssert); ok {
+							if ld, ok := p.resolve(ta.X).(*ssa.Extract); ok {
+								if c, ok := ld.Tuple.(*ssa.Call); ok && strings.HasPrefix(p.calleeKey(c.Common()), "(*sync.Map).Load") && len(c.Common().Args) > 1 {
+									okKey = p.expr(c.Common().Args[1]) == "$typ"
+								}
+							}
+						}
+						r.Check("newMakeGen#result-built-for-typ", ret.Pos(), okKey, "a reused generator is looked up by the reflect.Type itself", "newMakeGen can return "+p.expr(rv)+", which is not built in this call from typ (nor looked up by typ itself): two distinct types that print the same (same name in two scopes or packages) get one generator, and the value does not have the requested dynamic type")
+					}
+				}
+				r.Floor("unconverted returns of newMakeGen", nRaw, 1)
+			}
 			r.Floor("scalar kinds handled by Make", nScalar, 15)
 			r.Floor("kinds handled by Make", nCases, 20)
 			r.Check("newMakeKindGen#has-default", sw.Pos(), hasDefault, "kind switch has a default", "kind switch has no default case")
@@ -1129,7 +1201,7 @@ func ruleC03R9(r *Run) {
 				}
 				facts := append(p.facts(cs.Instr), a.Facts...)
 				ex := p.expr(bo)
-				if !(holds(facts, ex, ">=", "0") || holds(facts, ex, ">", "0") || holds(facts, ex, ">", "-1")) {
+				if !(holds(facts, ex, ">=", "0") || holds(facts, ex, ">", "0") || holds(facts, ex, ">", "-1") || nonNegDifference(p, bo, facts)) {
 					okAll, detail = false, ex
 				}
 			}
@@ -1238,9 +1310,24 @@ func ruleC03R10(r *Run) {
 			if !ok {
 				continue
 			}
-			for _, side := range []ssa.Value{bo.X, bo.Y} {
+			for si, side := range []ssa.Value{bo.X, bo.Y} {
 				sum, ok := p.resolve(side).(*ssa.BinOp)
 				if !ok || sum.Op != token.ADD {
+					continue
+				}
+				// the other side is the limit itself: g.maxLen, or "unlimited" (math.MaxInt) where maxLen < 0
+				limitOK := true
+				for _, a := range p.alternatives([]ssa.Value{bo.Y, bo.X}[si], 0) {
+					e := p.expr(a.Val)
+					if _, isC := p.resolve(a.Val).(*ssa.Const); isC {
+						if e != "9223372036854775807" {
+							limitOK = false
+						}
+					} else if e != "$g.maxLen" {
+						limitOK = false
+					}
+				}
+				if !limitOK {
 					continue
 				}
 				hasLen, hasRune := false, false
@@ -1263,4 +1350,155 @@ func ruleC03R10(r *Run) {
 		r.Check("(*stringGen).value#fits", cs.Instr.Pos(), okBudget, "a rune is appended only if the bytes written so far plus its length stay within maxLen", "stringGen.value appends a rune without the test b.Len()+RuneLen(r) <= maxLen: the byte-length limit of StringN/StringOfN is not enforced")
 	}
 	r.Floor("appends in stringGen.value", n, 1)
+}
+
+// nonNegDifference: bo is X - c for a constant c, and the facts bound X from below by c (X > k with k >= c-1,
+// X >= k with k >= c, or X != 0 for a length and c == 1).
+func nonNegDifference(p *Program, bo *ssa.BinOp, facts []rel) bool {
+	if bo.Op != token.SUB {
+		return false
+	}
+	c, ok := constInt(p.resolve(bo.Y))
+	if !ok {
+		return false
+	}
+	x := p.expr(bo.X)
+	for _, f := range facts {
+		if f.X != x {
+			continue
+		}
+		k, err := strconv.ParseInt(f.Y, 10, 64)
+		if err != nil {
+			continue
+		}
+		switch f.Op {
+		case ">":
+			if k >= c-1 {
+				return true
+			}
+		case ">=":
+			if k >= c {
+				return true
+			}
+		case "!=":
+			if k == 0 && c == 1 && strings.HasPrefix(x, "builtin:len(") {
+				return true
+			}
+		}
+	}
+	return false
+}
+
+// ruleC03R11: must-draw. mustDraw(f) holds when every path from f's entry to a normal return passes a drawing call:
+// bitStream.drawBits itself, a rapid function for which mustDraw holds (least fixed point), the generator wrapper
+// (Generator.value / Draw / an impl's value through the interface: each impl is judged on its own, assume-guarantee),
+// or find(gen, …) with gen bound to a must-draw function.
+func ruleC03R11(r *Run) {
+	p := r.P
+	must := map[*ssa.Function]bool{}
+	origin := func(f *ssa.Function) *ssa.Function {
+		if f == nil {
+			return nil
+		}
+		if o := f.Origin(); o != nil {
+			return o
+		}
+		return f
+	}
+	// the function a func-typed operand is bound to (closure, method value, plain function)
+	var boundFn func(v ssa.Value, d int) *ssa.Function
+	boundFn = func(v ssa.Value, d int) *ssa.Function {
+		if d > 4 {
+			return nil
+		}
+		switch x := v.(type) {
+		case *ssa.Function:
+			return origin(x)
+		case *ssa.MakeClosure:
+			f := origin(x.Fn.(*ssa.Function))
+			// a bound method value ($bound wrapper): the method itself
+			if f.Synthetic != "" && len(f.Blocks) > 0 {
+				for _, b := range f.Blocks {
+					for _, in := range b.Instrs {
+						if c, ok := in.(*ssa.Call); ok {
+							if sc := c.Common().StaticCallee(); sc != nil {
+								return origin(sc)
+							}
+						}
+					}
+				}
+			}
+			return f
+		case *ssa.ChangeType:
+			return boundFn(x.X, d+1)
+		}
+		if rv := p.resolve(v); rv != v {
+			return boundFn(rv, d+1)
+		}
+		return nil
+	}
+	draws := func(in ssa.Instruction) bool {
+		c, ok := in.(ssa.CallInstruction)
+		if !ok {
+			return false
+		}
+		if _, isDefer := in.(*ssa.Defer); isDefer {
+			return false
+		}
+		if _, isGo := in.(*ssa.Go); isGo {
+			return false
+		}
+		cc := c.Common()
+		key := p.calleeKey(cc)
+		switch key {
+		case "invoke:bitStream.drawBits", "invoke:generatorImpl.value", "(*Generator).value", "(*Generator).Draw":
+			return true
+		case "find":
+			if f := boundFn(cc.Args[0], 0); f != nil && must[f] {
+				return true
+			}
+			return false
+		}
+		if sc := origin(cc.StaticCallee()); sc != nil && p.inRapid(sc) {
+			return must[sc]
+		}
+		return false
+	}
+	for changed := true; changed; {
+		changed = false
+		for _, fn := range p.FuncList {
+			if must[fn] || fn.Blocks == nil {
+				continue
+			}
+			if escapesFromEntry(fn, draws, false) == nil && len(returnsOf(fn)) > 0 {
+				must[fn] = true
+				changed = true
+			}
+		}
+	}
+	exempt := map[string]string{
+		"(*customGen).value":       "runs the user's function: drawing is the user's obligation (the assertion message says so)",
+		"(*Generator).value":       "the wrapper itself",
+		"(*regexpStringGen).value": "regexpGen.build recurses over the syntax tree; that every node draws rests on an invariant of regexp/syntax (no empty concatenation), which is out of reach here — not decided",
+		"(*regexpSliceGen).value":  "as regexpStringGen.value — not decided",
+	}
+	n := 0
+	for _, fn := range p.FuncList {
+		name := p.fnName(fn)
+		if !strings.HasSuffix(name, ").value") || fn.Signature.Recv() == nil || fn.Blocks == nil {
+			continue
+		}
+		if why, ok := exempt[name]; ok {
+			r.OK(name+"#draws", fn.Pos(), "exempt: "+why)
+			continue
+		}
+		n++
+		esc := escapesFromEntry(fn, draws, false)
+		pos := fn.Pos()
+		if esc != nil {
+			pos = esc.Pos()
+		}
+		r.Check(name+"#draws", pos, esc == nil, "every path to a return reads the bit stream", name+" can return without having read the bit stream: Generator.value's group then holds no data and endGroup panics with 'group did not use any data from bitstream' — for that input the generator fails instead of producing its (degenerate) value")
+	}
+	r.Floor("value methods of built-in generators", n, 18)
 }
